@@ -1,10 +1,454 @@
 import Driver.Common
-/-! Judge for C06: not built yet (stub so that the target exists). -/
-open Lean Driver
+import EgVerif.Spec.Validator
+/-!
+Judges for C06.
+
+* `validator` — one case = a list of requests run through `Validator.Handle`
+  (`harness/overlay/pkg/filters/validator/zz_verif_c06_validator_test.go`). For every request the
+  judge rebuilds the model request from what net/http parsed, recomputes every digest with the
+  Lean SHA-256 / HMAC (`Model/Sha256.lean`), parses JSON web tokens itself (HS256 verified in Lean,
+  HS384/512 by the harness' independent `crypto/hmac` oracle), and compares Go's result / status /
+  `X-AUTH-USER` / forwarded payload with `Validator.handle` (agree) and with `Spec.expected` (spec).
+* `canon` — `pkg/util/signer`: Go's `Sign` / `Presign` / `Verify` against the Lean `sign`, `presign`,
+  `verify`, component by component (canonical URI, query, headers, signed headers, body hash,
+  hash of the canonical request, signature, Authorization header).
+-/
+open Lean EgVerif.Sha256 EgVerif.Signer EgVerif.Validator
 
 namespace Driver.C06
 
-def judges : List (String × Judge) := []
+/-- strings that are not valid UTF-8 arrive as `"\x01hex:<hex>"` (see `c06S` in the harness) -/
+def sbRaw (s : String) : Bytes := s.toUTF8.toList
+
+def bs (x : Bytes) : String :=
+  match String.fromUTF8? (ByteArray.mk x.toArray) with
+  | some s => s
+  | none => "hex:" ++ toStr (hex x)
+
+def hexVal (c : UInt8) : Option Nat :=
+  if 48 ≤ c ∧ c ≤ 57 then some (c.toNat - 48) else if 97 ≤ c ∧ c ≤ 102 then some (c.toNat - 87)
+  else if 65 ≤ c ∧ c ≤ 70 then some (c.toNat - 55) else none
+
+def unhex : Bytes → Option Bytes
+  | [] => some []
+  | [_] => none
+  | a :: c :: r => do
+    let x ← hexVal a
+    let y ← hexVal c
+    let t ← unhex r
+    pure (UInt8.ofNat (x * 16 + y) :: t)
+
+def sb (s : String) : Bytes :=
+  let raw := sbRaw s
+  match EgVerif.Signer.stripPrefix [1, 104, 101, 120, 58] raw with
+  | some h => (unhex h).getD raw
+  | none => raw
+
+def getBytes (j : Json) (k : String) : Except String Bytes := do pure (sb (← getStr j k))
+def optBytes (j : Json) (k : String) : Bytes := sb (optStr j k)
+
+def getHex (j : Json) (k : String) : Except String Bytes := do
+  match unhex (sb (optStr j k)) with
+  | some x => pure x
+  | none => throw s!"bad hex in {k}"
+
+/-- array under `k`; missing / null = empty (hand-written corpus lines and shrunk inputs omit keys) -/
+def arrOf (j : Json) (k : String) : Array Json := (getArr j k).toOption.getD #[]
+
+def strsOf (j : Json) (k : String) : List String :=
+  (arrOf j k).toList.filterMap fun x => (x.getStr?).toOption
+
+/-- `[[key, v1, v2, …], …]` -/
+def getAssoc (j : Json) (k : String) : Except String Header := do
+  let a := arrOf j k
+  a.toList.mapM fun e => do
+    let xs ← e.getArr?
+    let ss ← xs.toList.mapM (·.getStr?)
+    match ss with
+    | [] => throw "empty assoc entry"
+    | key :: vs => pure (sb key, vs.map sb)
+
+def optObj (j : Json) (k : String) : Option Json :=
+  match j.getObjVal? k with
+  | .ok .null => none
+  | .ok v => some v
+  | .error _ => none
+
+/-! ## configuration -/
+
+def parseLiteral (j : Json) : Literal :=
+  match optObj j "literal" with
+  | none => defaultLiteral
+  | some l => ⟨optBytes l "scopeSuffix", optBytes l "algorithmName", optBytes l "algorithmValue", optBytes l "signedHeaders",
+      optBytes l "signature", optBytes l "date", optBytes l "expires", optBytes l "credential", optBytes l "contentSha256",
+      optBytes l "signingKeyPrefix"⟩
+
+def dedupStore : List (Bytes × Bytes) → List (Bytes × Bytes)
+  | [] => []
+  | (k, v) :: r => -- Go map literal semantics: the last entry for a key wins
+    let rest := dedupStore r
+    if rest.any (·.1 = k) then rest else (k, v) :: rest
+
+def parseSigCfg (j : Json) : Except String EgVerif.Signer.Cfg := do
+  let keys := arrOf j "keys"
+  let store := keys.toList.filterMap fun e =>
+    match e.getArr? with
+    | .ok xs => match xs.toList.map (fun x => (x.getStr?).toOption.getD "") with
+      | k :: v :: _ => some (sb k, sb v)
+      | _ => none
+    | .error _ => none
+  let ign := (strsOf j "ignored").map sb
+  pure { lit := parseLiteral j, ignored := ign, ttl := optInt j "ttl_s" * 1000000000, excludeBody := optBool j "exclude_body",
+         store := dedupStore store }
+
+def parseRules (cfg : Json) (p : Json) : Except String (Option (List HeaderRule)) := do
+  let rs := arrOf cfg "headers"
+  if rs.isEmpty then return none
+  let os := arrOf p "rules"
+  let rules := rs.toList.zipIdx.map fun (r, i) =>
+    let o := os[i]?.getD Json.null
+    let re := optStr r "regexp"
+    let vals := ((getStrList r "values").toOption.getD []).map sb
+    ({ key := optBytes r "key", values := vals,
+       regexp := if re ≠ "" && optBool o "re_ok" then some (sb (toString i)) else none } : HeaderRule)
+  pure (some rules)
+
+/-- regexp oracle: pattern id = rule index; the harness evaluated the rule's regexp on the first value -/
+def reOracle (p : Json) : Bytes → Bytes → Bool := fun pat v =>
+  match (getArr p "rules").toOption with
+  | none => false
+  | some os =>
+    match (bs pat).toNat? with
+    | none => false
+    | some i =>
+      let o := os[i]?.getD Json.null
+      optBool o "present" && sb (optStr o "first") = v && optBool o "re_match"
+
+/-! ## JSON web tokens, parsed independently of golang-jwt -/
+
+def registeredAlgs : List String :=
+  ["HS256", "HS384", "HS512", "RS256", "RS384", "RS512", "ES256", "ES384", "ES512", "PS256", "PS384", "PS512", "none"]
+
+def segJson (seg : Bytes) : Option Json := do
+  let raw ← b64UrlDecodeSeg seg
+  let s ← String.fromUTF8? (ByteArray.mk raw.toArray)
+  match Json.parse s with
+  | .ok j@(.obj _) => some j
+  | _ => none
+
+def tokenSegs (tok : Bytes) : Option (Bytes × Bytes × Bytes) :=
+  match splitOn 46 tok with
+  | [a, c, d] => some (a, c, d)
+  | _ => none
+
+def claimTime (cl : Json) (k : String) : Option Int :=
+  match cl.getObjVal? k with
+  | .ok (.num n) => some (n.mantissa / (10 ^ n.exponent : Nat))   -- int64(float64): truncation of non-negative values
+  | _ => none
+
+def jwtLibOf (nowS : Int) (p : Json) (mismatch : Bool → Bool → Bool) : JwtLib where
+  headerAlg tok := do
+    let (h, c, _) ← tokenSegs tok
+    let hj ← segJson h
+    let _ ← segJson c
+    match hj.getObjVal? "alg" with
+    | .ok (.str a) => if registeredAlgs.contains a then some (sb a) else none
+    | _ => none
+  claimsOK tok :=
+    match tokenSegs tok with
+    | none => false
+    | some (_, c, _) =>
+      match segJson c with
+      | none => false
+      | some cl =>
+        (match claimTime cl "exp" with | some e => decide (nowS ≤ e) | none => true)
+        && (match claimTime cl "iat" with | some e => decide (e ≤ nowS) | none => true)
+        && (match claimTime cl "nbf" with | some e => decide (e ≤ nowS) | none => true)
+  sigOK tok alg key :=
+    let orc : Json := ((getArr p "toks").toOption.getD #[]).toList.find? (fun o => sb (optStr o "tok") = tok) |>.getD Json.null
+    match tokenSegs tok with
+    | none => false
+    | some (h, c, s) =>
+      if alg = sb "HS256" then
+        let mine := b64UrlDecodeSeg s == some (hmac key (h ++ 46 :: c))
+        mismatch mine (optBool orc "hs256")
+      else if alg = sb "HS384" then optBool orc "hs384"
+      else if alg = sb "HS512" then optBool orc "hs512"
+      else false
+
+/-! ## clock oracles -/
+
+def clockOf (p : Json) : Clock :=
+  let ts := ((getArr p "times").toOption.getD #[]).toList
+  let us := ((getArr p "uints").toOption.getD #[]).toList
+  { fmtDate := fun t => match ts.find? (fun o => optBool o "ok" && optInt o "unix_ns" = t) with
+      | some o => sb (optStr o "date") | none => sb "?"
+    fmtTime := fun t => match ts.find? (fun o => optBool o "ok" && optInt o "unix_ns" = t) with
+      | some o => sb (optStr o "refmt") | none => sb "?"
+    parseTime := fun s => match ts.find? (fun o => sb (optStr o "s") = s) with
+      | some o => if optBool o "ok" then some (optInt o "unix_ns") else none
+      | none => none
+    parseExpires := fun s => match us.find? (fun o => sb (optStr o "s") = s) with
+      | some o => if optBool o "ok" then some (optInt o "ns") else none
+      | none => none }
+
+def leanCrypto : Crypto := { sha256hex := sha256hex, hmac := hmac }
+
+/-! ## one request -/
+
+def parseReq (p : Json) : Except String Request := do
+  let q ← getAssoc p "query"
+  let h ← getAssoc p "headers"
+  let payload ← getHex p "payload_hex"
+  pure { std := { method := optBytes p "method", epath := optBytes p "epath", query := q, headers := h,
+                  host := optBytes p "host", urlHost := optBytes p "url_host", scheme := optBytes p "scheme" },
+         payload := payload }
+
+def outcomeOf (result : String) (hasResp : Bool) (status : Nat) : Option Outcome :=
+  if result = "" then (if hasResp then none else some .pass)
+  else if result = "invalid" && hasResp then some (.invalid status) else none
+
+def outcomeJson : Outcome → Json
+  | .pass => Json.mkObj [("result", ""), ("status", (0 : Nat))]
+  | .invalid s => Json.mkObj [("result", "invalid"), ("status", s)]
+
+structure ReqVerdict where
+  agree : Bool
+  spec : Bool
+  expected : Json
+  tags : List String
+  accepted : Bool
+  sig : String := ""
+  note : String := ""
+
+def usersOf (cfg : Json) : Bytes → Bytes → Bool :=
+  let us : List (Bytes × Bytes) := match optObj cfg "basic" with
+    | none => []
+    | some bcfg => ((getArr bcfg "users").toOption.getD #[]).toList.filterMap fun e =>
+        match e.getArr? with
+        | .ok xs => match xs.toList.map (fun x => (x.getStr?).toOption.getD "") with
+          | u :: pw :: _ => some (sb u, sb pw)
+          | _ => none
+        | .error _ => none
+  -- go-htpasswd: a later line for the same user replaces the earlier one
+  fun u pw => match (us.reverse.find? (·.1 = u)) with
+    | some e => e.2 = pw
+    | none => false
+
+def verrTag : Except VErr Unit → String
+  | .ok _ => "sig:ok"
+  | .error e => "sig:" ++ (reprStr e).replace "EgVerif.Signer.VErr." ""
+
+def judgeReq (cfgJ : Json) (ro : Json) : Except String ReqVerdict := do
+  let label := optStr ro "label"
+  let kind := match label.splitOn ":" with | [_, k] => k | _ => label
+  match obsPanic ro with
+  | some m => return { agree := false, spec := false, expected := Json.null, tags := ["panic"], accepted := false,
+                       sig := "panic:Validator.Handle", note := m }
+  | none =>
+  if optStr ro "parse_err" ≠ "" || optStr ro "fetch_err" ≠ "" then
+    -- net/http refused the bytes: the request never reaches a filter
+    return { agree := true, spec := true, expected := Json.null, tags := ["unparsable", "mut:" ++ kind], accepted := false }
+  let p ← ro.getObjVal? "p"
+  let r ← parseReq p
+  let sigCfg ← match optObj cfgJ "sig" with
+    | none => pure none
+    | some s => do pure (some (← parseSigCfg s))
+  let jwtCfg : Option JwtCfg := (optObj cfgJ "jwt").map fun j =>
+    { alg := optBytes j "alg", secret := (unhex (optBytes j "secret_hex")).getD [], cookieName := optBytes j "cookie" }
+  let rules ← parseRules cfgJ p
+  let cfg : EgVerif.Validator.Cfg := { headers := rules, jwt := jwtCfg, sig := sigCfg, basic := (optObj cfgJ "basic").isSome }
+  -- a disagreement between the Lean HMAC and crypto/hmac on an HS256 token is recorded here
+  let shaBad := (jwtLibOf (optInt ro "jwt_now_s") p (fun mine go => mine != go)).sigOK
+  let lib := jwtLibOf (optInt ro "jwt_now_s") p (fun mine _ => mine)
+  let mkEnv (now : Int) : Env :=
+    { re := reOracle p, jwtLib := lib, cookie := fun _ => if optBool p "cookie_ok" then some (optBytes p "cookie_val") else none,
+      crypto := leanCrypto, clock := clockOf p, now := now, users := usersOf cfgJ }
+  let env0 := mkEnv (optInt ro "t0_ns")
+  let env1 := mkEnv (optInt ro "t1_ns")
+  let status := (getNat ro "status").toOption.getD 0
+  let got := outcomeOf (optStr ro "result") (optBool ro "has_resp") status
+  let m0 := handle cfg env0 r
+  let m1 := handle cfg env1 r
+  let s0 := Spec.expected cfg env0 r
+  let s1 := Spec.expected cfg env1 r
+  let agreeOutcome := got == some m0 || got == some m1
+  let specOutcome := got == some s0 || got == some s1
+  -- side observations: forwarded payload untouched, X-AUTH-USER
+  let fwdOK := optStr ro "fwd_hex" == optStr p "payload_hex"
+  let user := if cfg.basic then basicValidate env0.users r.std.headers else none
+  let userOK := if got == some .pass && cfg.basic then some (optBytes ro "auth_user") == user else true
+  let opaqueOK := optStr p "opaque" == ""
+  let shaOK := match jwtCfg with
+    | some j => match jwtToken j env0.cookie r.std.headers with
+      | some t => !(shaBad t (sb "HS256") j.secret)
+      | none => true
+    | none => true
+  -- classify
+  let accepted := got == some .pass
+  let vtag := match sigCfg with
+    | some s => [verrTag (verify s leanCrypto env0.clock env0.now r.std (some r.payload))]
+    | none => []
+  let tags := ["mut:" ++ kind, (if accepted then "accepted" else s!"rejected-{status}")]
+    ++ (if rules.isSome then ["cfg:headers"] else []) ++ (if jwtCfg.isSome then ["cfg:jwt"] else [])
+    ++ (if sigCfg.isSome then ["cfg:signature"] else []) ++ (if cfg.basic then ["cfg:basic"] else []) ++ vtag
+    ++ (if m0 != m1 then ["time-ambiguous"] else [])
+    ++ (if r.payload.isEmpty then [] else ["body"])
+    ++ (match sigCfg with | some s => if s.excludeBody then ["exclude-body"] else [] | none => [])
+  let sig :=
+    if specOutcome then ""
+    else if got == some (handleWith (fun _ => some []) parseCreds cfg env0 r) then "signature:body-not-covered"
+    else if got == some (handleWith (fun r => some r.payload) parseCredsSplitAll cfg env0 r) then "basic:colon-in-password"
+    else if got == some (handleWith (fun _ => some []) parseCredsSplitAll cfg env0 r) then "signature:body-not-covered+basic:colon-in-password"
+    else if accepted then "validator:accepted-invalid:" ++ kind
+    else if got.isNone then "validator:malformed-outcome"
+    else if s0 == .pass then "validator:rejected-valid:" ++ kind
+    else "validator:wrong-status"
+  let note := (if fwdOK then "" else "forwarded payload changed; ") ++ (if userOK then "" else "X-AUTH-USER mismatch; ")
+    ++ (if opaqueOK then "" else "URL.Opaque non-empty; ") ++ (if shaOK then "" else "Lean HMAC-SHA256 != crypto/hmac on HS256 token; ")
+  pure { agree := agreeOutcome && fwdOK && userOK && opaqueOK && shaOK, spec := specOutcome && fwdOK,
+         expected := Json.mkObj [("label", label), ("model", outcomeJson m0), ("spec", outcomeJson s0)],
+         tags := tags, accepted := accepted, sig := sig, note := note }
+
+def validatorJudge : Judge := liftJudge fun input obs => do
+  match obsPanic obs with
+  | some m => pure { agree := false, spec := false, sig := "panic:harness", note := m }
+  | none =>
+  if optStr obs "error" ≠ "" then
+    return { agree := true, spec := true, nontrivial := false, tags := ["harness-error:" ++ optStr obs "error"] }
+  let cfgJ ← input.getObjVal? "cfg"
+  let reqs := arrOf obs "reqs"
+  let vs ← reqs.toList.mapM (judgeReq cfgJ)
+  let firstBad := vs.find? (fun v => !v.spec)
+  let firstDis := vs.find? (fun v => !v.agree)
+  let baseAcc := match vs with | v :: _ => v.accepted | [] => false
+  let rejMut := (vs.drop 1).any (fun v => !v.accepted)
+  let tags := (vs.map (·.tags)).flatten.eraseDups ++ (if baseAcc then ["base-accepted"] else ["base-rejected"])
+  pure { agree := firstDis.isNone, spec := firstBad.isNone,
+         expected := Json.arr (vs.map (·.expected)).toArray, tags := tags,
+         nontrivial := baseAcc && rejMut,
+         sig := match firstBad with | some v => v.sig | none => "",
+         note := match firstBad, firstDis with
+           | some v, _ => v.note ++ (v.expected.compress)
+           | none, some v => "disagree: " ++ v.note ++ (v.expected.compress)
+           | none, none => "" }
+
+/-! ## canon: Go's Sign / Presign / Verify against the Lean model -/
+
+def parseStd (p : Json) : Except String Req := do
+  let q ← getAssoc p "query"
+  let h ← getAssoc p "headers"
+  pure { method := optBytes p "method", epath := optBytes p "epath", query := q, headers := h,
+         host := optBytes p "host", urlHost := optBytes p "url_host", scheme := optBytes p "scheme" }
+
+def canonLiteral (cfgJ : Json) : Literal :=
+  match optObj cfgJ "literal" with
+  | none => defaultLiteral
+  | some l =>
+    -- the Go struct's JSON tag for AlgorithmValue is misspelt `alrithmValue`
+    let av := if optStr l "alrithmValue" ≠ "" then optBytes l "alrithmValue" else optBytes l "algorithmValue"
+    ⟨optBytes l "scopeSuffix", optBytes l "algorithmName", av, optBytes l "signedHeaders",
+      optBytes l "signature", optBytes l "date", optBytes l "expires", optBytes l "credential", optBytes l "contentSha256",
+      optBytes l "signingKeyPrefix"⟩
+
+def canonClock (obs : Json) : Clock :=
+  let c := clockOf obs
+  let fs := ((getArr obs "fmt").toOption.getD #[]).toList
+  { c with
+    fmtDate := fun t => match fs.find? (fun o => optInt o "unix_ns" = t) with
+      | some o => sb (optStr o "date") | none => c.fmtDate t
+    fmtTime := fun t => match fs.find? (fun o => optInt o "unix_ns" = t) with
+      | some o => sb (optStr o "time") | none => c.fmtTime t }
+
+def sortAssoc (h : Header) : Header := sortBy (·.1) h
+
+def errTag : Except VErr Unit → String
+  | .ok _ => ""
+  | .error .expired => "expired"
+  | .error .unknownKey => "unknownKey"
+  | .error .mismatch => "mismatch"
+  | .error .timestampMismatch => "timestampMismatch"
+  | .error _ => "other"
+
+def canonJudge : Judge := liftJudge fun input obs => do
+  match obsPanic obs with
+  | some m => pure { agree := false, spec := false, sig := "panic:signer", note := m }
+  | none =>
+  if optStr obs "error" ≠ "" then
+    return { agree := true, spec := true, nontrivial := false, tags := ["harness-error:" ++ optStr obs "error"] }
+  let cfgJ ← input.getObjVal? "cfg"
+  let lit := canonLiteral cfgJ
+  let ign := ((getStrList cfgJ "ignored").toOption.getD []).map sb
+  let store : List (Bytes × Bytes) := [(optBytes input "store_key", optBytes input "store_secret")]
+  let cfg : EgVerif.Signer.Cfg := ⟨lit, ign, 0, optBool cfgJ "exclude_body", store⟩
+  let before ← parseStd (← obs.getObjVal? "before")
+  let after ← parseStd (← obs.getObjVal? "after")
+  let tampered ← parseStd (← obs.getObjVal? "tampered")
+  let clock := canonClock obs
+  let t := optInt obs "sign_time_ns"
+  let presignMode := optBool input "presign"
+  let bodyBytes ← getHex input "body_hex"
+  let body : Option Bytes := if optBool input "body_nil" then none else some bodyBytes
+  let seen : Bytes := body.getD []
+  let key := optBytes input "key"
+  let secret := optBytes input "secret"
+  let scopes := ((getStrList input "scopes").toOption.getD []).map sb
+  let expire := optInt input "expires_s" * 1000000000
+  let cr := leanCrypto
+  -- the model's signed request
+  let mAfter := if presignMode then presign cfg cr clock key secret t scopes expire before body
+                else sign cfg cr clock key secret t scopes before body
+  let sameReq := sortAssoc mAfter.headers == sortAssoc after.headers && sortAssoc mAfter.query == sortAssoc after.query
+  -- component by component
+  let ps := signPairs cfg { after with headers := after.headers }
+  let scope := scopeString lit clock t scopes
+  let pre : Option Presign := if presignMode then some ⟨key, expire, signedHeadersOf ps⟩ else none
+  let cq := (canonQuery lit clock t scope pre before.query).1
+  let bh := (hashBodySign cfg cr before.headers body).1
+  let creq := canonicalRequest before.method (canonURI before.epath) cq (canonHeadersOf ps) (signedHeadersOf ps) bh
+  let comps : List (String × Bytes × String) := [
+    ("canon_uri", canonURI before.epath, optStr obs "canon_uri"), ("canon_query", cq, optStr obs "canon_query"),
+    ("canon_headers", canonHeadersOf ps, optStr obs "canon_headers"), ("signed_headers", signedHeadersOf ps, optStr obs "signed_headers"),
+    ("body_hash", bh, optStr obs "body_hash"), ("hcr", cr.sha256hex creq, optStr obs "hcr"),
+    ("signature", signature lit cr clock secret t scopes creq, optStr obs "signature")]
+  let badComps := comps.filter (fun c => c.2.1 != sb c.2.2)
+  -- Verify (wall clock read once somewhere between the two instants)
+  let v0 := verify cfg cr clock (optInt obs "verify_now_ns") after (some seen)
+  let v1 := verify cfg cr clock (optInt obs "verify_now2_ns") after (some seen)
+  let goV := optStr obs "verify_err"
+  let verifyAgree := (errTag v0 == goV || errTag v1 == goV) && (optBool obs "verify_ok" == (goV == ""))
+  let tb ← getHex obs "tamper_body_hex"
+  let w0 := verify cfg cr clock (optInt obs "verify_now2_ns") tampered (some tb)
+  let tamperAgree := optBool obs "tamper_ok" == w0.toBool || errTag w0 == "expired"
+  -- spec 1 (completeness): credentials known to the store, content-hash header not supplied by the caller,
+  -- presigned URL still valid ⇒ Verify accepts
+  let honest := optBytes input "store_key" == key && optBytes input "store_secret" == secret
+    && hget before.headers lit.contentSha256 == []
+    && (!presignMode || (optInt input "off_s" ≥ -5 && optInt input "expires_s" ≥ 60))
+  let complete := !honest || optBool obs "verify_ok"
+  -- spec 2 (tamper): an accepted tampered request agrees with the signed one on everything covered
+  let sound := match initFromSignedRequest lit clock after with
+    | .ok ctx =>
+      !(optBool obs "verify_ok" && optBool obs "tamper_ok") ||
+        (covered cfg clock ctx after == covered cfg clock ctx tampered && (cfg.excludeBody || tb == seen))
+    | .error _ => !(optBool obs "verify_ok")
+  let kind := optStr input "tamper"
+  let tags := [if presignMode then "presign" else "header-mode", "tamper:" ++ kind,
+      (if optBool obs "verify_ok" then "verify-ok" else "verify-" ++ goV),
+      (if optBool obs "tamper_ok" then "tamper-accepted" else "tamper-rejected")]
+    ++ (if cfg.excludeBody then ["exclude-body"] else []) ++ (if body.isNone then ["body-nil"] else [])
+    ++ (if (optObj cfgJ "literal").isSome then ["custom-literal"] else [])
+    ++ (if honest then ["honest"] else ["dishonest"])
+  let note := (if sameReq then "" else "signed request differs; ") ++ String.intercalate "," (badComps.map (·.1))
+    ++ (if verifyAgree then "" else " verify: go=" ++ goV ++ " model=" ++ errTag v0)
+    ++ (if tamperAgree then "" else " tamper verdict differs")
+  pure { agree := sameReq && badComps.isEmpty && verifyAgree && tamperAgree, spec := complete && sound,
+         expected := Json.mkObj (comps.map fun c => (c.1, Json.str (bs c.2.1))),
+         tags := tags, nontrivial := optBool obs "verify_ok" && !optBool obs "tamper_ok",
+         sig := if !complete then "signer:valid-signature-rejected" else if !sound then "signer:tamper-accepted:" ++ kind else "",
+         note := note }
+
+def judges : List (String × Judge) := [("validator", validatorJudge), ("canon", canonJudge)]
 
 end Driver.C06
 
